@@ -104,7 +104,7 @@ func C02(p *ir.Program, r *report.R) {
 			continue
 		}
 		n++
-		c.Guards(csT+"enterPrecommit", "lock proposal block", s.Instr, c02Validated...)
+		c.GuardsS(csT+"enterPrecommit", "lock proposal block", s, c02Validated...)
 	}
 	c.MustFind("K1", csT+"enterPrecommit/lock proposal block", ep, n, "LockedBlock = ProposalBlock")
 	// every non-nil precommit is for the locked block (validated when it was locked)
